@@ -397,6 +397,20 @@ CHECKS["C09"] = {
     "outside": "node API errors (they legitimately end the loop; covered in C08's polling/re-observation harnesses); the hand-over from fetched to confirmed (C08 polling harness); supervisor restarts (C18); HTTP and JSON layers (hooked Client methods)",
     "assumptions": CHECKS["C08"]["assumptions"] + ["time.NewTicker in watcher.go redirected to a harness ticker that fires when the harness says so"],
 }
+_EVM_OPTS = {"z3": "z3-new", "hookfiles": "pkg/ethereum/connector.go:func,pkg/ethereum/poller.go:*", "clockfiles": "pkg/ethereum/watcher.go"}
+CHECKS["C10"] = {
+    "runs": [
+        {"pkg": "./pkg/ethereum", "entry": "VerifC10_Main", "reach": ["forwarded", "dropped", "still-pending", "end"], "opts": _EVM_OPTS,
+         "shards": {"quick": ["waitForConfirmations=1;heads=1", "waitForConfirmations=0;heads=1", "waitForConfirmations=1;heads=2", "waitForConfirmations=0;heads=2"]}},
+        {"pkg": "./pkg/ethereum", "entry": "VerifC10_Reobserve", "reach": ["forwarded", "nothing-forwarded"], "opts": _EVM_OPTS},
+    ],
+    "bounds": {"quick": {"primary path": "the real Watcher.Run service loops; one subscription log at any height < 2^40 with any consistency level; 1..2 head events with any number < 2^41, safe or not; per head the receipt lookup answers nil / ErrNoResult / \"not found\" / another error / a receipt with any status in the same or another block; both confirmation modes",
+                         "re-observation": "one request; head read (any value, or failing) then a receipt (or failure) with any status, any block number and 0..2 logs, each from the core contract or another address, with the message topic or another one, any consistency level"},
+               "thorough": {}},
+    "outside": "the websocket dial, the block poller's timing and go-ethereum's abi log decoding (NewEthereumConnector, NewBlockPollConnector, BlockPollConnector.getBlock/SubscribeForBlocks are replaced through hook prologues in both builds; ParseLogMessagePublished returns the scripted fields); more than one pending message; more than two heads; guardian-set polling",
+    "assumptions": ["cooperative goroutines; sync.Mutex with blocking Lock; context model", "math/big.Int model for block numbers (SetUint64/Uint64/Int64)",
+                    "the connector is a harness implementation of the package's Connector interface (same code natively and symbolically)"],
+}
 
 # generated harness parts per (module, package): regenerated from /repo on every run for every check that loads the package
 GENERATORS = {("node", "./pkg/vaa"): [_gen_c04], ("node", "./pkg/processor"): [_gen_c07], ("node", "./pkg/alephium"): [_gen_c11], ("node", "./cmd/guardiand"): [_gen_c15]}
